@@ -181,6 +181,10 @@ func init() {
 					if r.Chance(60) {
 						m.From = mk()
 					}
+					if r.Chance(25) {
+						// an explicit envelope sender whose local part needs quoting as well
+						m.EnvFrom = mk()
+					}
 					for k := range m.To {
 						if r.Chance(60) {
 							m.To[k] = mk()
